@@ -376,3 +376,137 @@ class Interp(object):
                 args = [self.ev(x, env) for x in n.c]
             return self.call(tgt, this, args)
         raise Unsupported('call to %s at %s is neither inlined nor answered by the oracle' % (cal.get('q'), n.loc()))
+
+
+class Opaque(tuple):
+    """abstract value of an expression the interpreter does not look into"""
+    pass
+
+
+def _canon_cmp(op, l, r):
+    """canonical key and negation flag for a comparison between abstract values"""
+    if op == '>':
+        return ('<', r, l), False
+    if op == '<':
+        return ('<', l, r), False
+    if op == '<=':
+        return ('<', r, l), True
+    if op == '>=':
+        return ('<', l, r), True
+    a, b = sorted([l, r], key=repr)
+    if op == '==':
+        return ('==', a, b), False
+    if op == '!=':
+        return ('==', a, b), True
+    return None, False
+
+
+class GenericInterp(Interp):
+    """Boolean abstraction with a generic oracle: every call that is not inlined is opaque;
+    opaque booleans and comparisons between opaque values are free booleans keyed by their
+    (argument-resolved) shape, so that equal queries get equal answers on a path."""
+
+    def __init__(self, prog, inline=None, concrete=None, watch=None):
+        Interp.__init__(self, prog, oracle=GenericInterp.gorc, inline=inline)
+        self.concrete = concrete or (lambda interp, n, env: NotImplemented)
+        self.watch = watch or (lambda n: False)
+
+    def decide_neg(self, key, neg):
+        v = self.decide(key)
+        return (not v) if neg else v
+
+    def truth(self, v, node):
+        if isinstance(v, (bool, int)) and not isinstance(v, Opaque):
+            return bool(v)
+        if isinstance(v, Free):
+            return self.decide(v.key)
+        return self.decide(('truthy', v))
+
+    def binop(self, op, l, r, n):
+        try:
+            return Interp.binop(self, op, l, r, n)
+        except Unsupported:
+            pass
+        key, neg = _canon_cmp(op, _freeze(l), _freeze(r))
+        if key is not None:
+            return self.decide_neg(('cmp',) + key, neg)
+        return Opaque(('bin', op, _freeze(l), _freeze(r)))
+
+    def member(self, base, name, n, env):
+        if base == env.get('this') and name in self.fields:
+            return self.fields[name]
+        return Opaque(('mem', name, _freeze(base)))
+
+    def gorc(self, n, env):
+        r = self.concrete(self, n, env)
+        if r is not NotImplemented:
+            return r
+        k = n.k
+        if k == 'call':
+            cal = n.callee
+            if cal is None:
+                return Opaque(('icall', n.id))
+            tgt = self.prog.funcs.get(cal.get('usr'))
+            if tgt is not None and self.inline(tgt):
+                return NotImplemented
+            op = n.get('op')
+            vals = tuple(_freeze(self.ev(x, env)) for x in n.c if x is not None)
+            if op in ('<', '>', '<=', '>=', '==', '!=') and len(vals) == 2:
+                key, neg = _canon_cmp(op, vals[0], vals[1])
+                return self.decide_neg(('cmp',) + key, neg)
+            if op == '!' and len(vals) == 1:
+                return not self.truth(vals[0], n)
+            if op == '=' and len(n.c) == 2:
+                tgtn = unwrap(n.c[0])
+                if tgtn.k == 'ref' and tgtn.decl.get('lid') is not None:
+                    env[tgtn.decl['lid']] = vals[1]
+                    return vals[1]
+                if tgtn.k == 'member' and (not tgtn.c or tgtn.c[0] is None or unwrap(tgtn.c[0]).k == 'this'):
+                    self.fields[tgtn.decl.get('name')] = vals[1]
+                    return vals[1]
+            name = cal.get('q') if not n.get('member') else cal.get('name')
+            if self.watch(n):
+                self.log.append((cal.get('name'),) + vals)
+            if cal.get('kind') == 'conv' and cal.get('ret') == 'bool':
+                return self.decide(('truthy', vals[0]))
+            v = Opaque(('call', name) + vals)
+            if cal.get('ret') == 'bool':
+                return self.decide(('bool', name) + vals)
+            return v
+        if k == 'construct':
+            cal = n.callee or {}
+            args = [x for x in n.c if x is not None and x.k != 'defarg']
+            vals = tuple(_freeze(self.ev(x, env)) for x in args)
+            if self.watch(n):
+                self.log.append(('new ' + (cal.get('cls') or '?'),) + vals)
+            if len(vals) == 1 and ((cal.get('cls') or '').startswith('std::') or (cal.get('cls') or '').startswith('boost::optional')):
+                return vals[0]
+            return Opaque(('new', cal.get('cls')) + vals)
+        if k == 'ref' and n.decl.get('kind') not in LOCAL_KINDS and n.decl.get('kind') != 'enumconst':
+            return Opaque(('g', n.decl.get('q')))
+        if k == 'lambda':
+            return Opaque(('lambda', n.id))
+        if k == 'subscript':
+            return Opaque(('idx', _freeze(self.ev(n.c[0], env)), _freeze(self.ev(n.c[1], env))))
+        if k == 'this':
+            return env.get('this') if env.get('this') is not None else Opaque(('this',))
+        if k == 'unop' and n.get('op') in ('*', '&', '-', '+'):
+            v = self.ev(n.c[0], env)
+            if n.get('op') == '-' and isinstance(v, (int, float)) and not isinstance(v, bool):
+                return -v
+            if n.get('op') == '*':
+                return Opaque(('deref', _freeze(v)))
+            return Opaque(('u' + n.get('op'), _freeze(v)))
+        if k in ('new', 'delete', 'sizeof', 'valueinit'):
+            return Opaque((k, n.id))
+        return NotImplemented
+
+
+def _freeze(v):
+    if isinstance(v, list):
+        return tuple(_freeze(x) for x in v)
+    if isinstance(v, tuple):
+        return tuple(_freeze(x) for x in v)
+    if isinstance(v, Free):
+        return ('free', v.key)
+    return v
